@@ -541,8 +541,12 @@ def _equal_graphs(g1, g2):
     :return: given two graphs this function return true if they have the same adjacency matrix.
     :rtype: bool
     """
-    adj1 = (nx.to_numpy_array(g1)).astype(bool)
-    adj2 = (nx.to_numpy_array(g2)).astype(bool)
+    # compare vertex by vertex: the two graphs may list the same vertices in different insertion orders
+    nodelist = sorted(g1.nodes())
+    if sorted(g2.nodes()) != nodelist:
+        return False
+    adj1 = (nx.to_numpy_array(g1, nodelist=nodelist)).astype(bool)
+    adj2 = (nx.to_numpy_array(g2, nodelist=nodelist)).astype(bool)
     return np.array_equal(adj1, adj2)
 
 
